@@ -113,6 +113,19 @@ func forEachDate(c *Ctx, stripe int, f func(y, m, d int)) {
 	}
 }
 
+// dateDecodeOnto runs one decode (UnmarshalText, JSON, XML …) whose expected result is (y, m, d) on receivers that already hold a value —
+// the two sentinels of dateSentinels — and on a fresh zero Date. It returns the first receiver that does not end up as exactly (y, m, d).
+func dateDecodeOnto(y, m, d int, dec func(r *date.Date) error) (date.Date, error, bool) {
+	sn := dateSentinels(y, m, d)
+	for _, r := range []date.Date{sn[0], sn[1], {}} {
+		r := r
+		if err := dec(&r); err != nil || !dateIs(r, y, m, d) {
+			return r, err, false
+		}
+	}
+	return date.Date{}, nil, true
+}
+
 func init() {
 	props["C01"] = propC01
 	props["C07"] = propC07
@@ -155,10 +168,11 @@ func c01Secondary(c *Ctx, y, m, d int, ext, bas string, full bool) {
 		c.Fail("C01.json", key, "%s %v, want %q", j, err, ext)
 	}
 	if !full {
-		var back date.Date
+		back := dateSentinels(y, m, d)[0] // a variable that already holds another date
 		if err := json.Unmarshal(j, &back); err != nil || !dateIs(back, y, m, d) {
 			c.Fail("C01.unjson", key, "%v %v", back, err)
 		}
+		back = dateSentinels(y, m, d)[1]
 		if err := json.Unmarshal([]byte(`"`+bas+`"`), &back); err != nil || !dateIs(back, y, m, d) {
 			c.Fail("C01.unjson.basic", key, "%v %v", back, err)
 		}
@@ -178,17 +192,20 @@ func c01Secondary(c *Ctx, y, m, d int, ext, bas string, full bool) {
 		c.Fail("C01.json", key, "nested: %s %v", jn, err)
 	}
 	for _, in := range []string{ext, bas} {
-		var back date.Date
-		if err := json.Unmarshal([]byte(`"`+in+`"`), &back); err != nil || !dateIs(back, y, m, d) {
+		// every decode lands on variables that already hold another date (and on a fresh one): the result is the decoded date,
+		// never the old value, a merge of the two, or a no-op (0001-01-01 is the zero value of Date)
+		if back, err, ok := dateDecodeOnto(y, m, d, func(r *date.Date) error { return json.Unmarshal([]byte(`"`+in+`"`), r) }); !ok {
 			c.Fail("C01.unjson", key, "%q -> %v %v", in, back, err)
 		}
-		var u date.Date
-		if err := u.UnmarshalText([]byte(in)); err != nil || !dateIs(u, y, m, d) {
+		if u, err, ok := dateDecodeOnto(y, m, d, func(r *date.Date) error { return r.UnmarshalText([]byte(in)) }); !ok {
 			c.Fail("C01.UnmarshalText", "date.parse "+fmt.Sprint(date.MaxInputLength)+" 0 "+hx([]byte(in)), "%s -> %v %v", in, u, err)
 		}
-		var xin xw
-		if err := xml.Unmarshal([]byte(`<w a="`+in+`"><d>`+in+`</d></w>`), &xin); err != nil || !dateIs(xin.D, y, m, d) || !dateIs(xin.A, y, m, d) {
-			c.Fail("C01.unxml", key, "%q -> %v %v %v", in, xin.D, xin.A, err)
+		sns := dateSentinels(y, m, d)
+		for _, sn := range []date.Date{sns[0], sns[1], {}} {
+			xin := xw{D: sn, A: sn}
+			if err := xml.Unmarshal([]byte(`<w a="`+in+`"><d>`+in+`</d></w>`), &xin); err != nil || !dateIs(xin.D, y, m, d) || !dateIs(xin.A, y, m, d) {
+				c.Fail("C01.unxml", key, "%q onto %v -> %v %v %v", in, sn, xin.D, xin.A, err)
+			}
 		}
 	}
 	x, err := xml.Marshal(xw{D: dt, A: dt})
@@ -237,9 +254,43 @@ func propC01(c *Ctx) {
 			}
 		}
 	}
+	// fmt verbs. Date implements fmt.Formatter, so every verb, flag, width and precision reaches Date.Format. Its documented table
+	// (date/date.go) is: %b basic; %e and %s extended; formatByVerb sends every other verb to the default, i.e. extended as well, and
+	// Format writes the text as it is (flags, width and precision have no effect). That reading is judged for every ASCII-letter verb
+	// fmt passes on (fmt answers %T and %p itself and refuses %w outside Errorf) with the flags and widths fmt can deliver.
+	for _, ymd := range [][3]int{{1, 1, 1}, {2024, 2, 29}, {9999, 12, 31}, {0, 6, 5}, {123456, 7, 8}} {
+		y, m, d := ymd[0], ymd[1], ymd[2]
+		dt := date.New(y, time.Month(m), d)
+		ext := digits(y, 4) + "-" + digits(m, 2) + "-" + digits(d, 2)
+		bas := digits(y, 4) + digits(m, 2) + digits(d, 2)
+		for verb := byte('A'); verb <= 'z'; verb++ {
+			if (verb > 'Z' && verb < 'a') || verb == 'T' || verb == 'p' || verb == 'w' {
+				continue
+			}
+			for _, fl := range []string{"", "+", "#", "-", "0", " ", "10", "-12", "012", ".3", "15.4", "+#020.5", "+ #-0"} {
+				format := "%" + fl + string(verb)
+				want := ext
+				if verb == 'b' {
+					want = bas
+				}
+				line := fmt.Sprintf("date.verb %d %d %d %s", y, m, d, hx([]byte(format)))
+				if fl == "" || fl == "+" || fl == "#" || fl == "10" || verb == 'v' || verb == 's' || verb == 'd' || verb == 'q' || verb == 'x' {
+					c.Op(line)
+				}
+				c.Check(line)
+				if got := fmt.Sprintf(format, dt); got != want {
+					c.Fail("C01.verbs", line, "Sprintf(%q, %s) = %q, want %q (documented table: %%b basic, every other verb extended; flags and width have no effect)", format, ext, got, want)
+				}
+				if got := fmt.Sprintf(format, &dt); got != want {
+					c.Fail("C01.verbs", line, "Sprintf(%q, &date) = %q, want %q", format, got, want)
+				}
+			}
+		}
+	}
 	// long years under raised or disabled limits
-	for _, y := range []int{10000, 12345, 99999, 100000, 999999, 1234567, 99999999, 123456789, 999999999, 10000 + c.R.Intn(999990000)} {
-		for _, md := range [][2]int{{1, 1}, {2, 28}, {2, 29}, {12, 31}, {6, 30}} {
+	// (leap days of non-leap centuries do not exist and are skipped; those of 400-multiples and of ordinary leap years must round-trip)
+	for _, y := range longYears(c) {
+		for _, md := range [][2]int{{1, 1}, {2, 28}, {2, 29}, {3, 1}, {12, 31}, {6, 30}} {
 			if md[1] > dim(y, md[0]) {
 				continue
 			}
@@ -332,6 +383,10 @@ func propC01(c *Ctx) {
 			if err := u.UnmarshalText([]byte(in)); err != nil || !dateIs(u, y, m, d) {
 				c.Fail("C01.UnmarshalText", "date.parse 10 0 "+hx([]byte(in)), "%s -> %v %v", in, u, err)
 			}
+			us := dateSentinels(y, m, d)[n%2] // … and onto a variable that already holds another date
+			if err := us.UnmarshalText([]byte(in)); err != nil || !dateIs(us, y, m, d) {
+				c.Fail("C01.UnmarshalText", "date.parse 10 0 "+hx([]byte(in)), "%s onto %v -> %v %v", in, dateSentinels(y, m, d)[n%2], us, err)
+			}
 		}
 		// the hand-picked dates always, the others on a sample
 		if n%29 == 0 || c.Thorough || c01Special(y, m, d) {
@@ -350,7 +405,8 @@ func propC01(c *Ctx) {
 				line := fmt.Sprintf("date.parse %d 0 %s", shipped.dateML, hx([]byte(in)))
 				c.Check(line)
 				p, err := date.DefaultParser(in, 0)
-				var u, j date.Date
+				sn := dateSentinels(y, m, d)
+				u, j := sn[0], sn[1]
 				eu := u.UnmarshalText([]byte(in))
 				ej := json.Unmarshal([]byte(`"`+in+`"`), &j)
 				if err != nil || eu != nil || ej != nil || !dateIs(p, y, m, d) || !dateIs(u, y, m, d) || !dateIs(j, y, m, d) {
@@ -391,6 +447,7 @@ func propC07(c *Ctx) {
 	for _, a := range far {
 		da := date.New(a[0], time.Month(a[1]), a[2])
 		oa := ordinal(a[0], a[1], a[2])
+		c07TimeOracle(c, da, a[0], a[1], a[2], fmt.Sprintf("date.new %d %d %d", a[0], a[1], a[2]))
 		for _, b := range far {
 			db := date.New(b[0], time.Month(b[1]), b[2])
 			ob := ordinal(b[0], b[1], b[2])
@@ -450,6 +507,63 @@ func propC07(c *Ctx) {
 		a := bs[c.R.Intn(len(bs))]
 		addOracle(c, a, c.R.Intn(2000001)-1000000, c.R.Intn(240001)-120000, c.R.Intn(8000001)-4000000)
 		addDurOracle(c, a, int64(c.R.Next()))
+	}
+	// receivers from the whole range a Date is promised for (negative, 5-9 digit and +-999,999,999 years), not only years 0000-9999:
+	// the same one-component, combined and far deltas, and durations, against the same independent expectation
+	wide := [][3]int{{-999999999, 1, 1}, {-999999999, 12, 31}, {-5000000, 6, 15}, {-4194305, 1, 31}, {-70000, 2, 28}, {-500, 3, 15}, {-400, 2, 29}, {-100, 2, 28}, {-100, 3, 1}, {-4, 2, 29},
+		{-1, 12, 31}, {-1, 1, 31}, {0, 1, 1}, {0, 2, 29}, {10000, 1, 1}, {10100, 2, 28}, {32768, 6, 1}, {65636, 2, 29}, {70100, 3, 1}, {100000, 2, 29}, {4294967, 12, 31}, {16777216, 3, 31},
+		{999999996, 2, 29}, {999999999, 12, 31}, {999999999, 1, 1}}
+	for i := 0; i < 6; i++ {
+		y := c.R.Intn(2*999999999+1) - 999999999
+		m := 1 + c.R.Intn(12)
+		wide = append(wide, [3]int{y, m, 1 + c.R.Intn(dim(y, m))})
+	}
+	for _, a := range wide {
+		for _, t := range [][3]int{{0, 0, 1}, {0, 0, -1}, {0, 0, 31}, {0, 0, 366}, {0, 0, -366}, {0, 1, 0}, {0, -1, 0}, {0, 12, 0}, {0, -13, 0}, {1, 0, 0}, {-1, 0, 0}, {4, 0, 0}, {-100, 0, 0}, {400, 0, 0},
+			{0, 0, 106752}, {0, 0, -4000000}, {0, 119999, 0}, {1000000, 0, 0}, {-1000000, 0, 0}, {1, -13, 106752}, {-9999, 119999, -106752},
+			{c.R.Intn(2001) - 1000, c.R.Intn(241) - 120, c.R.Intn(80001) - 40000}} {
+			addOracle(c, a, t[0], t[1], t[2])
+		}
+		for _, ns := range []int64{1, -1, 86400e9, -86400e9, 86400e9 - 1, -86400e9 - 1, 40000 * 86400e9, -40000*86400e9 - 1, math.MaxInt64, math.MinInt64, int64(c.R.Next())} {
+			addDurOracle(c, a, ns)
+		}
+	}
+	// Sub / DaysBetween by DISTANCE, from receivers of the whole range: every distance up to the edge of time.Duration's range
+	// (max Duration = 106751 days 23:47:16.854775807, so 106751 whole days are the last exact value) must be exact on both sides.
+	// Outside the range the property promises nothing: nothing is asserted here, the lines only go to the model (which
+	// saturates like time.Time.Sub) for the correspondence.
+	subRecv := append([][3]int{{1700, 1, 1}, {1960, 1, 1}, {2000, 1, 1}, {2024, 2, 29}, {1, 1, 1}, {9999, 12, 31}, {1582, 10, 15}}, wide...)
+	for i := 0; i < 6; i++ {
+		subRecv = append(subRecv, bs[c.R.Intn(len(bs))])
+	}
+	for _, a := range subRecv {
+		da := date.New(a[0], time.Month(a[1]), a[2])
+		oa := ordinal(a[0], a[1], a[2])
+		for _, k0 := range []int64{0, 1, 28, 365, 366, 36524, 53375, 53376, 73414, 73800, 80000, 90000, 94962, 100000, 106000, 106650, 106651, 106750, 106751, 106752, 106753, 110000, 146097, 1000000,
+			73800 + int64(c.R.Intn(32951))} {
+			for _, k := range []int64{k0, -k0} {
+				by, bm, bd := civilFromOrdinal(oa - k)
+				if by < -999999999 || by > 999999999 {
+					continue
+				}
+				db := date.New(by, time.Month(bm), bd)
+				line := fmt.Sprintf("date.sub %d %d %d %d %d %d", a[0], a[1], a[2], by, bm, bd)
+				c.Op(line)
+				c.Check(line)
+				if !dateIs(db, by, bm, bd) {
+					c.Fail("C07.new", fmt.Sprintf("date.new %d %d %d", by, bm, bd), "New -> %v", db)
+					continue
+				}
+				if k <= 106751 && k >= -106751 {
+					if got := int64(da.DaysBetween(db)); got != k {
+						c.Fail("C07.days.distance", line, "DaysBetween = %d, want %d (inside time.Duration's range)", got, k)
+					}
+					if got := da.Sub(db); got != time.Duration(k)*24*time.Hour {
+						c.Fail("C07.sub.distance", line, "Sub = %d ns, want %d days", int64(got), k)
+					}
+				}
+			}
+		}
 	}
 	for i := 0; i < 4000; i++ {
 		a := bs[c.R.Intn(len(bs))]
@@ -598,17 +712,22 @@ func propC07(c *Ctx) {
 				dayNo := floorDiv64(sec, 86400)
 				line := fmt.Sprintf("date.fromtime %d %d %d", t.Unix(), t.Nanosecond(), off)
 				d := date.FromTime(t)
-				var dp, ds date.Date
-				dp.FromTime(t)
-				serr := ds.Scan(t)
-				for i, g := range []date.Date{d, dp, ds} {
-					gy, gm, gd := g.Date()
-					if ordinal(gy, int(gm), gd) != dayNo+1 || gd < 1 || gd > dim(gy, int(gm)) {
-						c.Fail([]string{"C07.fromtime", "C07.fromtime.method", "C07.fromtime.scan"}[i], line, "%v (offset %d s) -> %v", t, off, g)
+				// the pointer method and Scan on a fresh variable and on variables that already hold another date (far away / same month)
+				wy, wm, wd := civilFromOrdinal(dayNo + 1)
+				sn := dateSentinels(wy, wm, wd)
+				for _, r0 := range []date.Date{{}, sn[0], sn[1]} {
+					dp, ds := r0, r0
+					dp.FromTime(t)
+					serr := ds.Scan(t)
+					for i, g := range []date.Date{d, dp, ds} {
+						gy, gm, gd := g.Date()
+						if ordinal(gy, int(gm), gd) != dayNo+1 || gd < 1 || gd > dim(gy, int(gm)) {
+							c.Fail([]string{"C07.fromtime", "C07.fromtime.method", "C07.fromtime.scan"}[i], line, "%v (offset %d s) onto %v -> %v", t, off, r0, g)
+						}
 					}
-				}
-				if serr != nil {
-					c.Fail("C07.fromtime.scan", line, "Scan(%v): %v", t, serr)
+					if serr != nil {
+						c.Fail("C07.fromtime.scan", line, "Scan(%v): %v", t, serr)
+					}
 				}
 			}
 		}
@@ -638,6 +757,30 @@ func addDurOracle(c *Ctx, a [3]int, ns int64) {
 	if int(rm) < 1 || int(rm) > 12 || rd < 1 || rd > dim(ry, int(rm)) || ordinal(ry, int(rm), rd) != want {
 		wy, wm, wd := civilFromOrdinal(want)
 		c.Fail("C07.adddur", line, "-> %v, want %04d-%02d-%02d", r, wy, wm, wd)
+		return
+	}
+	c07TimeOracle(c, r, ry, int(rm), rd, line)
+}
+
+// c07TimeOracle: d, whose components are (y, m, dd), converts to midnight UTC of the same year-month-day — through Time() and through
+// Value() (the database/sql conversion) — for any year, not only 0000-9999; and that time converts back to the same date.
+func c07TimeOracle(c *Ctx, d date.Date, y, m, dd int, line string) {
+	c.Check("")
+	check := func(what string, tm time.Time) {
+		if ty, tmm, td := tm.Date(); ty != y || int(tmm) != m || td != dd || tm.Location() != time.UTC || tm.Hour() != 0 || tm.Minute() != 0 || tm.Second() != 0 || tm.Nanosecond() != 0 {
+			c.Fail("C07.time", line, "%s of %04d-%02d-%02d = %v (location %v), want midnight UTC of the same day", what, y, m, dd, tm, tm.Location())
+		}
+	}
+	check("Time()", d.Time())
+	if v, err := d.Value(); err != nil {
+		c.Fail("C07.time", line, "Value(): %v", err)
+	} else if tv, ok := v.(time.Time); !ok {
+		c.Fail("C07.time", line, "Value() is %T", v)
+	} else {
+		check("Value()", tv)
+	}
+	if back := date.FromTime(d.Time()); !dateIs(back, y, m, dd) {
+		c.Fail("C07.time.roundtrip", line, "FromTime(Time()) = %v", back)
 	}
 }
 
@@ -664,6 +807,7 @@ func addOracle(c *Ctx, a [3]int, dy, dm, dd int) {
 	if !date.FromTime(r.Time()).Equal(r) {
 		c.Fail("C07.add.time", line, "-> %v does not survive Time()", r)
 	}
+	c07TimeOracle(c, r, ry, int(rm), rd, line)
 }
 
 // ---------------------------------------------------------------------------------------- C09
@@ -787,8 +931,10 @@ func propC09(c *Ctx) {
 			}
 		}
 	}
-	for _, y := range []int{10000, 99999, 123456, 1000000, 99999999, 999999999, 400000000} {
-		for _, md := range [][2]int{{0, 1}, {1, 0}, {1, 1}, {2, 28}, {2, 29}, {2, 30}, {4, 31}, {12, 31}, {12, 32}, {13, 1}} {
+	// long years of every kind (non-leap centuries, multiples of 400, ordinary leap and non-leap years, values around 2^15, 2^16, 2^32/1000 …,
+	// a few random ones per run): the leap day is accepted exactly when the year has one, and the components are the written ones
+	for _, y := range longYears(c) {
+		for _, md := range [][2]int{{0, 1}, {1, 0}, {1, 1}, {1, 31}, {2, 28}, {2, 29}, {2, 30}, {3, 1}, {4, 30}, {4, 31}, {6, 31}, {9, 31}, {11, 31}, {12, 31}, {12, 32}, {13, 1}} {
 			for _, ml := range []int{0, 8, 10, 15} {
 				for _, in := range []string{digits(y, 4) + "-" + digits(md[0], 2) + "-" + digits(md[1], 2), digits(y, 4) + digits(md[0], 2) + digits(md[1], 2)} {
 					checkDateParse(c, in, ml, 0)
@@ -898,8 +1044,12 @@ func propC11(c *Ctx) {
 			c.Fail("C11.layout", in, "%v %v", bin, err)
 		}
 		var ub date.Date
-		if err := ub.UnmarshalBinary(bin); err != nil || !ub.Equal(dt) {
+		if err := ub.UnmarshalBinary(bin); err != nil || !ub.Equal(dt) || !dateIs(ub, y, m, d) {
 			c.Fail("C11.roundtrip", "date.unbin "+hx(bin), "%v %v", ub, err)
+		}
+		us := dateSentinels(y, m, d)[(y+d)&1] // … and onto a variable that already holds another date
+		if err := us.UnmarshalBinary(bin); err != nil || !dateIs(us, y, m, d) {
+			c.Fail("C11.roundtrip", "date.unbin "+hx(bin), "onto a used variable: %v %v", us, err)
 		}
 	}
 	lo := -400
@@ -932,6 +1082,8 @@ func propC11(c *Ctx) {
 			check(y, 1, 1)
 			check(y, 12, 31)
 			check(y, 2, 28)
+			check(y, 2, dim(y, 2)) // a hand-picked year brings its special day: the leap day when it has one
+			check(y, 3, 1)
 		}
 		out := c.Op(fmt.Sprintf("date.bin %d 2 28", y))
 		c.Op("date.unbin " + out)
@@ -944,11 +1096,56 @@ func propC11(c *Ctx) {
 			}
 		}
 	}
-	// all (month, day) bytes for several years: never yields a non-date
-	ys := []int{2023, 2024, 1900, 2000}
-	if c.Thorough {
-		ys = append(ys, 0, -4, -100, 999999999, -999999999, 1+c.R.Intn(9999))
+	// the special days of long and negative years of every kind: the last day of February and 1 March round-trip
+	specialYears := append(longYears(c), 0, -1, -4, -100, -400, -1900, -2000, -65636, -70100, -999999600, -999999900, -999999996, -999999999)
+	for i := 0; i < 4; i++ {
+		specialYears = append(specialYears, -4*(1+c.R.Intn(249999999)), -100*(1+c.R.Intn(9999999)), -400*(1+c.R.Intn(2499999)), -1-c.R.Intn(999999999))
 	}
+	for _, y := range specialYears {
+		check(y, 2, 28)
+		check(y, 2, dim(y, 2))
+		check(y, 3, 1)
+		check(y, 12, 31)
+		out := c.Op(fmt.Sprintf("date.bin %d 2 %d", y, dim(y, 2)))
+		c.Op("date.unbin " + out)
+	}
+	// all (month, day) bytes for several years: never yields a non-date. In the quick tier too the years include negative ones
+	// (century, multiple of 400, ordinary leap year, -1, the lower end of the range) and long ones (non-leap century, leap year beyond 2^16)
+	ys := []int{2023, 2024, 1900, 2000, -100, -400, -4, -1, 0, -999999999, 70100, 65636}
+	if c.Thorough {
+		ys = append(ys, 999999999, 100000, -1900, 1+c.R.Intn(9999))
+	}
+	// … and, for every special year, the (month, day) bytes around the real ones (0..14 x 0..34 and the top of the byte range)
+	for _, y := range specialYears {
+		for mb := 0; mb < 256; mb++ {
+			if mb > 14 && mb < 250 {
+				continue
+			}
+			for db := 0; db < 256; db++ {
+				if db > 34 && db < 250 {
+					continue
+				}
+				in := []byte{1, byte(uint32(y) >> 24), byte(uint32(y) >> 16), byte(uint32(y) >> 8), byte(uint32(y)), byte(mb), byte(db)}
+				ub := date.New(1999, 9, 9)
+				err := ub.UnmarshalBinary(in)
+				valid := mb >= 1 && mb <= 12 && db >= 1 && db <= dim(y, mb)
+				c.Check("")
+				if (err == nil) != valid {
+					c.Fail("C11.bytes", "date.unbin "+hx(in), "%d %d %d %v -> %v", y, mb, db, err, ub)
+				} else if err == nil {
+					if uy, um, ud := ub.Date(); uy != y || int(um) != mb || ud != db {
+						c.Fail("C11.bytes.value", "date.unbin "+hx(in), "-> %v", ub)
+					}
+				} else if !dateIs(ub, 1999, 9, 9) {
+					c.Fail("C11.bytes.recv", "date.unbin "+hx(in), "receiver changed to %v", ub)
+				}
+				if mb == 2 && db >= 28 && db <= 30 {
+					c.Op("date.unbin " + hx(in))
+				}
+			}
+		}
+	}
+	c.NT(int64(len(specialYears)) * 21 * 41)
 	for yi, y := range ys {
 		for mb := 0; mb < 256; mb++ {
 			for db := 0; db < 256; db++ {
@@ -1163,6 +1360,81 @@ func propC15(c *Ctx) {
 		}
 	}
 	c.NT(int64(len(idx) * len(idx) * len(win)))
+	// Several filters alive at once: all of them are built first (every kind: no bound, from, to, single day, range; some with the same
+	// bounds twice), the callers' variables are changed, and only then every filter is probed — interleaved, forwards and backwards.
+	// A filter keeps the bounds IT was built with: building another filter (a shared or recycled filter object, a one-entry cache)
+	// must not change an earlier one.
+	{
+		type kept struct {
+			flt    date.Filter
+			fi, ti int
+			fo, to int64
+		}
+		var ks []kept
+		pool := append(append([][3]int{}, win[len(win)-12:]...), win[c.R.Intn(60)], win[c.R.Intn(60)], win[c.R.Intn(60)], [3]int{-500, 3, 1}, [3]int{123456, 7, 8})
+		ptok := func(i int) string {
+			if i < 0 {
+				return "- - -"
+			}
+			return fmt.Sprintf("%d %d %d", pool[i][0], pool[i][1], pool[i][2])
+		}
+		for round := 0; round < 2; round++ {
+			for fi := -1; fi < len(pool); fi++ {
+				for ti := -1; ti < len(pool); ti++ {
+					if (fi+2*ti+round)%3 != 0 && fi != ti && fi >= 0 && ti >= 0 { // every one-bound and single-day filter, a third of the ranges per round
+						continue
+					}
+					var fp, tp *date.Date
+					k := kept{fi: fi, ti: ti}
+					if fi >= 0 {
+						fp, k.fo = mk(pool[fi]), ordinal(pool[fi][0], pool[fi][1], pool[fi][2])
+					}
+					if ti >= 0 {
+						tp, k.to = mk(pool[ti]), ordinal(pool[ti][0], pool[ti][1], pool[ti][2])
+					}
+					if fp != nil && tp != nil && k.fo > k.to {
+						continue
+					}
+					flt, err := date.FilterFromTo(fp, tp)
+					c.Check("")
+					if err != nil || flt == nil {
+						c.Fail("C15.err", "date.filter "+ptok(fi)+" "+ptok(ti)+" "+ptok(0), "%v %v %v", fp, tp, err)
+						continue
+					}
+					k.flt = flt
+					ks = append(ks, k)
+					if fp != nil {
+						*fp = date.New(2999, 1, 1)
+					}
+					if tp != nil {
+						*tp = date.New(1, 1, 1)
+					}
+				}
+			}
+		}
+		probe := func(k kept, pi int) {
+			p := pool[pi]
+			po := ordinal(p[0], p[1], p[2])
+			want := (k.fi < 0 || po >= k.fo) && (k.ti < 0 || po <= k.to)
+			c.Check("")
+			if k.flt.Contains(date.New(p[0], time.Month(p[1]), p[2])) != want {
+				c.Fail("C15.keeps", "date.filter "+ptok(k.fi)+" "+ptok(k.ti)+" "+ptok(pi), "want %v from a filter probed after %d other filters were built", want, len(ks)-1)
+			}
+		}
+		for pi := range pool {
+			for i := range ks {
+				probe(ks[i], pi)
+			}
+		}
+		for i := len(ks) - 1; i >= 0; i-- {
+			for pi := len(pool) - 1; pi >= 0; pi-- {
+				probe(ks[i], pi)
+				probe(ks[(i*7+3)%len(ks)], pi)
+			}
+		}
+		c.NT(int64(len(ks) * len(pool)))
+		c.Note("C15: %d filters kept alive and probed interleaved", len(ks))
+	}
 	// bounds and probes over the whole range a Date can hold: the int32 extremes of the stored year, the documented
 	// +-999,999,999, powers of two and mid-range millions (a packed or scaled comparison key overflows somewhere in between)
 	far := [][3]int{{-2147483647, 1, 1}, {-2147483647, 12, 31}, {-1073741824, 6, 15}, {-999999999, 1, 1}, {-999999999, 12, 31}, {-16777216, 2, 29}, {-6000000, 6, 15}, {-5772805, 1, 1}, {-5000000, 3, 1}, {-4194305, 1, 1},
